@@ -20,7 +20,19 @@ for d in sorted(glob.glob(os.path.join(V, "seeded", "C*", "*"))):
     rows.append("| %s/%s | %s | %s | %s |" % (pid, k, (meta.get("file") or "").replace("src/", ""), summ[:230], verdict))
 tab = "| change | file | what was changed | result |\n|---|---|---|---|\n" + "\n".join(rows)
 n = len(rows); det = sum(1 for r in res.values() if r.get("detected")); app = sum(1 for r in res.values() if r.get("applied", True))
-tab += "\n\n%d changes kept, %d still apply to the repaired tree, %d of those are caught.\n" % (n, app, det)
+metas = {}
+for d in sorted(glob.glob(os.path.join(V, "seeded", "C*", "*", "meta.json"))):
+    metas["/".join(d.split(os.sep)[-3:-1])] = json.load(open(d))
+reb = sorted(k for k, m in metas.items() if m.get("rebased"))
+obs = sorted(k for k, m in metas.items() if m.get("obsolete"))
+tab += "\n\n%d changes kept, %d are caught." % (n, det)
+if reb:
+    tab += (" %d of them (%s) touched a line that a later `fix:` commit rewrote; the same edit was re-made on the repaired tree and "
+            "re-confirmed (`patch.orig.diff` keeps the original)." % (len(reb), ", ".join(reb)))
+if obs:
+    tab += (" %s can no longer be re-made so that the unedited tests pass; the result dates from the tree it was written for "
+            "(`meta.json`: `obsolete`)." % ", ".join(obs))
+tab += "\n"
 p = os.path.join(V, "DESIGN.md")
 s = open(p).read()
 B, E = "<!-- seeded-table-begin -->", "<!-- seeded-table-end -->"
